@@ -276,9 +276,13 @@ func (c *Checker) runEBPCodec(thorough bool) {
 			continue
 		}
 		// re-encode
+		snap := n.st.clone()
 		got, why := n.readBytes(n.call(e, "Data"))
 		if n.in.Fail != "" {
 			why = "analysis of Data: " + n.in.Fail
+		}
+		if ch := n.changedSince(snap); why == "" && len(ch) > 0 {
+			why = fmt.Sprintf("Data() modifies the object it encodes: %v", ch)
 		}
 		if why == "" {
 			if len(got) != len(cells) {
@@ -302,7 +306,7 @@ func (c *Checker) runEBPCodec(thorough bool) {
 		g := groups[cable]
 		c.check("C12.decode", "ebp:ReadEncoderBoundaryPoint", name+": flags, SAP type, grouping ids, stream-sync signal, time words, partition flags, format identifier and reserved bytes are reported exactly as encoded",
 			g.dec.bad == 0, fmt.Sprintf("%d of %d layouts fail; first: %s", g.dec.bad, g.dec.n, g.dec.first))
-		c.check("C12.reencode", "ebp:Data", name+": Data() of the decoded object reproduces the input bytes",
+		c.check("C12.reencode", "ebp:Data", name+": Data() of the decoded object reproduces the input bytes and leaves the object as it was",
 			g.enc.bad == 0, fmt.Sprintf("%d of %d layouts fail; first: %s", g.enc.bad, g.enc.n, g.enc.first))
 	}
 	c.floorCheck("C12 layouts", len(shapes), 100)
@@ -421,12 +425,20 @@ func (c *Checker) ebpBuild(s ebpShape) string {
 	if in.Fail != "" {
 		return "analysis: " + in.Fail
 	}
+	snap := n.st.clone()
 	got, why := n.readBytes(n.call(e, "Data"))
 	if in.Fail != "" {
 		return "analysis of Data: " + in.Fail
 	}
 	if why != "" {
 		return why
+	}
+	// the encoder brings the length byte up to date; nothing else may change
+	lenCell := fmt.Sprintf("%s[%s]", o.Name, joinPath(basePath, fieldIdx("DataFieldLength")))
+	for _, ch := range n.changedSince(snap) {
+		if ch != lenCell {
+			return "Data() modifies the object it encodes (other than its length byte): " + ch
+		}
 	}
 	s2 := s
 	s2.reserved = 0
